@@ -2,12 +2,14 @@
   C14 — opacity / CIA / k-table files of every supported format load to the same physical table; the cache serves
   one object per molecule, loaded once; interpolation-mode changes take effect.
   Every theorem is about the definitions the driver `driver_c14` executes
-  (TaurexModel/Loaders.lean, Sanitize.lean, CacheSM.lean).  `K` is an arbitrary linearly ordered field (ℚ, ℝ, …).
+  (TaurexModel/Loaders.lean, Sanitize.lean, CacheSM.lean — `step` for the cross-section cache, `stepK` for the k-table
+  cache, `CiaSM.step` for the CIA cache).  `K` is an arbitrary linearly ordered field (ℚ, ℝ, …).
 -/
 import Proofs.C14Cache
 import Proofs.C14Sanitize
 import Proofs.C14Loaders
 import Proofs.C14Unified
+import Proofs.C14KCia
 
 namespace Taurex.C14
 open Taurex.Loaders Taurex.Sanitize Taurex.CacheSM
@@ -455,6 +457,66 @@ theorem inconsistent_entry_reloads :
     let fs : List Dir := [{ isDir := true, files := [⟨.exo, 0, "H2O", "1H2-16O"⟩] }]
     let ops : List COp := [.setPath 0, .get "H2O", .get "H2O", .get "H2O"]
     trace fs init ops = [.done, .missing, .missing, .missing] ∧ loadsOf (run fs init ops) "H2O" = 3 := by
+  decide +kernel
+
+/-! ## the k-table cache -/
+
+/-- the k-table cache (`KTableCache`, whose loading loop constructs EVERY discovered file that advertises the molecule) is
+    the same machine as the cross-section cache as long as no directory holds two k-table files advertising one
+    molecule: every theorem of the previous section then holds of it -/
+theorem ktable_same_machine (fs : List Dir) (hu : UniqueDisc fs) (s : CSt) (ops : List COp) :
+    (∀ op, stepK fs s op = step fs s op) ∧ runK fs s ops = run fs s ops ∧ traceK fs s ops = trace fs s ops :=
+  ⟨stepK_eq_step fs hu s, runK_eq_run fs hu ops s, traceK_eq_trace fs hu ops s⟩
+
+/-- non-vacuity, and the hypothesis cannot be dropped: with a pickle and an HDF5 k-table of one molecule in the directory
+    the k-table cache constructs both on the first request (and serves the first), the cross-section machine one -/
+example :
+    UniqueDisc [{ isDir := true, files := [⟨.khdf, 0, "H2O", "H2O"⟩, ⟨.kpickle, 1, "CH4", "CH4"⟩] }] ∧
+    (let fs : List Dir := [{ isDir := true, files := [⟨.khdf, 0, "H2O", "H2O"⟩, ⟨.kpickle, 1, "H2O", "H2O"⟩] }]
+     traceK fs init [.setPath 0, .get "H2O"] = [.done, .served ⟨0, "H2O", 0, none, some 0⟩] ∧
+     (runK fs init [.setPath 0, .get "H2O"]).log = [("H2O", 0), ("H2O", 1)] ∧
+     (run fs init [.setPath 0, .get "H2O"]).log = [("H2O", 0)]) := by
+  refine ⟨?_, by decide +kernel⟩
+  intro d hd
+  simp only [List.mem_singleton] at hd
+  subst hd
+  decide
+
+/-! ## the CIA cache -/
+
+/-- a CIA pair that is cached is served by that same object ever after (there is no clearing operation, `add_cia` never
+    replaces), and serving it does not touch the state -/
+theorem cia_served_same (fs : List CiaSM.CDir) (s : CiaSM.St) (m : String) (o : CiaSM.CObj) (ops : List CiaSM.Op)
+    (h : (CiaSM.step fs s (.get m)).2 = .served o) :
+    CiaSM.step fs (CiaSM.run fs (CiaSM.step fs s (.get m)).1 ops) (.get m)
+      = (CiaSM.run fs (CiaSM.step fs s (.get m)).1 ops, .served o) := by
+  exact CiaSM.step_get_hit (CiaSM.run_keeps fs ops _ m o (CiaSM.step_get_served h))
+
+/-- a cached CIA pair is never constructed again -/
+theorem cia_loaded_once (fs : List CiaSM.CDir) (s : CiaSM.St) (m : String) (o : CiaSM.CObj) (ops : List CiaSM.Op)
+    (h : CiaSM.lookup s.dict m = some o) : CiaSM.loadsOf (CiaSM.run fs s ops) m = CiaSM.loadsOf s m :=
+  CiaSM.run_loads fs ops s m o h
+
+/-- non-vacuity: a history over two directories (a `.db` and a `.cia` pair in the first, a `.cia` pair in the second), a
+    single path, then a list of paths: one construction per pair, the same objects served again -/
+example :
+    let fs : List CiaSM.CDir := [[⟨.db, 0, "H2-H2", "H2-H2"⟩, ⟨.cia, 1, "H2-He", "H2-He"⟩], [⟨.cia, 2, "N2-N2", "N2-N2"⟩]]
+    let ops : List CiaSM.Op := [.get "H2-H2", .setPath (.single 0), .get "H2-H2", .get "H2-He", .setPath (.many [1, 0]),
+                                .get "N2-N2", .get "H2-H2", .get "XX", .add "H2-H2"]
+    CiaSM.trace fs CiaSM.init ops =
+      [.missing, .done, .served ⟨0, "H2-H2", some 0⟩, .served ⟨1, "H2-He", some 1⟩, .done,
+       .served ⟨2, "N2-N2", some 2⟩, .served ⟨0, "H2-H2", some 0⟩, .missing, .dup] ∧
+    (CiaSM.run fs CiaSM.init ops).log = [("H2-H2", 0), ("H2-He", 1), ("N2-N2", 2)] := by
+  decide +kernel
+
+/-- recorded, not required: a pair provided by BOTH a `.db` and a `.cia` file of the configured path is not served by the
+    first request — the second file is constructed as well and `add_cia` raises; the request after that is served the
+    `.db` object (witness replayed on the real `CIACache` by the harness' malformed stream) -/
+theorem cia_both_formats_raise :
+    let fs : List CiaSM.CDir := [[⟨.db, 0, "H2-H2", "H2-H2"⟩, ⟨.cia, 1, "H2-H2", "H2-H2"⟩]]
+    let ops : List CiaSM.Op := [.setPath (.single 0), .get "H2-H2", .get "H2-H2"]
+    CiaSM.trace fs CiaSM.init ops = [.done, .dup, .served ⟨0, "H2-H2", some 0⟩] ∧
+    CiaSM.loadsOf (CiaSM.run fs CiaSM.init ops) "H2-H2" = 2 := by
   decide +kernel
 
 end Taurex.C14
